@@ -360,27 +360,28 @@ def arrayNew (cls : PyCls) (inp : NewInput) (bypass : Bool) : Except SErr NewRes
     | .npnumber => .ok ⟨⟨cls, []⟩, false⟩
     | .nonNumeric => .ok ⟨⟨cls, []⟩, false⟩                -- np.asarray('abc').view(cls): not refused here
 
+/-- `isinstance(input_scalar, (numeric_type, np.number, np.ndarray))` -/
+def NewInput.isNumeric : NewInput → Bool
+  | .pyscalar | .npnumber | .ndarray _ | .unyt _ _ => true
+  | _ => false
+
+/-- `np.asarray(input_scalar)`: a base-class array — its shape, and whether it is a view of the
+    argument (array input) or new data (scalars, lists) -/
+def NewInput.asarray : NewInput → Shape × Bool
+  | .pyscalar | .npnumber => ([], false)
+  | .ndarray s => (s, true)
+  | .unyt _ s => (s, true)
+  | .list s => (s, false)
+  | .emptyList => ([0], false)
+  | .listOfUnyt n e => (n :: e, false)
+  | .nonNumeric => ([], false)
+
 /-- array.py:`unyt_quantity.__new__`: numeric check, `unyt_array.__new__(cls, np.asarray(x), …)`,
     `if ret.size > 1: raise RuntimeError` -/
 def quantityNew (cls : PyCls) (inp : NewInput) (bypass : Bool) : Except SErr NewRes :=
-  let numeric : Bool := match inp with
-    | .pyscalar | .npnumber | .ndarray _ | .unyt _ _ => true
-    | _ => false
-  if !(bypass || numeric) then .error .RuntimeError
-  else
-    -- np.asarray(input_scalar): a base-class array (view of array input, new for scalars/lists)
-    let asarr : Except SErr (Shape × Bool) := match inp with
-      | .pyscalar | .npnumber => .ok ([], false)
-      | .ndarray s => .ok (s, true)
-      | .unyt _ s => .ok (s, true)
-      | .list s => .ok (s, false)
-      | .emptyList => .ok ([0], false)
-      | .listOfUnyt n e => .ok (n :: e, false)
-      | .nonNumeric => .ok ([], false)
-    match asarr with
-    | .error e => .error e
-    | .ok (s, sh) =>
-      if size s > 1 then .error .RuntimeError else .ok ⟨⟨cls, s⟩, sh⟩
+  if !(bypass || inp.isNumeric) then .error .RuntimeError
+  else if size inp.asarray.1 > 1 then .error .RuntimeError
+  else .ok ⟨⟨cls, inp.asarray.1⟩, inp.asarray.2⟩
 
 /-! ### reshape and the other view-making methods -/
 
